@@ -304,6 +304,8 @@ fn make_case(timeout: Option<u32>, fail: bool, durs: &[u32], mailbox: Mailbox, l
 }
 
 thread_local! {
+    /// the limit is given in half-milliseconds (scene tick = 0.5 ms)
+    static HALF_MS: std::cell::Cell<bool> = const { std::cell::Cell::new(false) };
     /// the actor registers an interval (timer 1, period 2) in started()
     static TICKING: std::cell::Cell<bool> = const { std::cell::Cell::new(false) };
 }
@@ -311,6 +313,12 @@ thread_local! {
 fn make_case_s(timeout: Option<u32>, fail: bool, durs: &[u32], mailbox: Mailbox, layout: u8, strat: Strat) -> Case {
     let mut role = RoleCfg::default();
     let ticking = TICKING.with(|t| t.get());
+    // (a scene tick of 0.5 ms: the configured limit is `timeout` half-milliseconds; on the virtual
+    // clock it runs out after that many half-milliseconds rounded up to whole ticks, which is what
+    // the oracle compares the - whole-tick - handler durations with)
+    let tick_us = HALF_MS.with(|h| if h.get() { 500 } else { 1000 });
+    role.tick_us = tick_us;
+    let limit_in_ticks = timeout.map(|t| crate::world::eff_ticks(t, tick_us) as u32);
     if ticking {
         role.started_actions.push(crate::world::Action::Interval { timer: 1, period: 2 });
     }
@@ -365,7 +373,7 @@ fn make_case_s(timeout: Option<u32>, fail: bool, durs: &[u32], mailbox: Mailbox,
     let desc = format!(
         "timeout{}{} t={timeout:?} fail={fail} durations={durs:?} mailbox={} layout={layout} strategy={strat:?}",
         crate::progscene::variant_tag(),
-        if ticking { " [an interval of period 2 is running]" } else if SPLIT.with(|s| s.get()) { " [handlers wait in one-tick pieces]" } else if DETACHED.with(|d| d.get()) { " [detached terminal spawn()]" } else { "" },
+        if tick_us != 1000 { " [limit given in half-milliseconds]" } else if ticking { " [an interval of period 2 is running]" } else if SPLIT.with(|s| s.get()) { " [handlers wait in one-tick pieces]" } else if DETACHED.with(|d| d.get()) { " [detached terminal spawn()]" } else { "" },
         mailbox.name()
     );
     Case {
@@ -377,7 +385,7 @@ fn make_case_s(timeout: Option<u32>, fail: bool, durs: &[u32], mailbox: Mailbox,
             attach: Attach::None,
             roles: vec![role],
             clients,
-            extra: X { strat, timeout, fail, durations, ticking },
+            extra: X { strat, timeout: limit_in_ticks, fail, durations, ticking },
             oracle,
         }),
     }
@@ -490,6 +498,22 @@ fn cases(tier: Tier) -> Vec<Case> {
     // third case; thorough: all)
     let step = if tier == Tier::Thorough { 1 } else { 3 };
     v.extend(with_detached(|| base_cases(tier)).into_iter().enumerate().filter(|(i, c)| i % step == 0 && !c.desc.contains("t=None")).map(|(_, c)| c));
+    // a limit that is not a whole number of milliseconds: 2.5 ms (three ticks of the virtual
+    // clock) - a handler of 2 ms completes, one of 4 ms is abandoned
+    HALF_MS.with(|h| h.set(true));
+    for fail in [false, true] {
+        for &mb in &[Mailbox::U, Mailbox::B(1)] {
+            for layout in [0u8, 1] {
+                for durs in [vec![2u32], vec![2, 0], vec![4, 2], vec![0, 2, 4]] {
+                    let mut c = make_case(Some(5), fail, &durs, mb, layout);
+                    // (the real tokio clock of the cross-check works in whole milliseconds)
+                    c.exec.real_crosscheck = false;
+                    v.push(c);
+                }
+            }
+        }
+    }
+    HALF_MS.with(|h| h.set(false));
     // an actor with a timer of its own: an abandoned invocation takes nothing else with it
     TICKING.with(|t| t.set(true));
     for &mb in &[Mailbox::U, Mailbox::B(1)] {
